@@ -811,6 +811,23 @@ func (env *Env) call(e *ast.CallExpr) Term {
 			return intT(fmt.Sprintf("(select %s %s)", g.get(env.st, cnt), ch.S))
 		}
 		return Term{fmt.Sprintf("(select %s %s)", g.get(env.st, last), ch.S), g.d.sortOf(ct.Elem()), ct.Elem()}
+	case "backing", "off":
+		// backing(s): the backing array of slice s as an SMT array; off(s): the index of s[0] in it
+		argn(1)
+		x := env.tr(e.Args[0])
+		sl, ok := types.Unalias(x.T).Underlying().(*types.Slice)
+		if !ok {
+			cerr("%s of non-slice", name)
+		}
+		if name == "off" {
+			return intT(fmt.Sprintf("(s_off %s)", x.S))
+		}
+		comp, es := g.elemComp(sl.Elem())
+		return Term{fmt.Sprintf("(select %s (s_ref %s))", g.get(env.st, comp), x.S), "(Array Int " + es + ")", nil}
+	case "sameArray":
+		argn(2)
+		a, b := env.tr(e.Args[0]), env.tr(e.Args[1])
+		return boolT(fmt.Sprintf("(and (> (s_ref %[1]s) 0) (= (s_ref %[1]s) (s_ref %[2]s)))", a.S, b.S))
 	case "hasprefix":
 		argn(2)
 		a, b := env.tr(e.Args[0]), env.tr(e.Args[1])
